@@ -1193,10 +1193,39 @@ def op_text(t):
     return "%s(%s)" % (name, [(r["s"], r["e"]) for r in t["m"]])
 
 
-def class_family(seed, n, base_id):
-    """One-class lexers over the digits: `<class expression> = tk(0), _ = tk(1)`."""
+STABLE_BUILTINS = ["ascii", "ascii_alphabetic", "ascii_alphanumeric", "ascii_control", "ascii_digit",
+                   "ascii_graphic", "ascii_hexdigit", "ascii_lowercase", "ascii_punctuation",
+                   "ascii_uppercase", "ascii_whitespace", "control", "whitespace"]
+
+
+def predicate_tables():
+    """Maximal runs of the Rust predicates behind the built-in classes (imported oracle)."""
+    from common import Workspace, run_parallel, BUILD, HARNESS
+    ws = Workspace("PRED")
+    d = os.path.join(ws.crate_dir("pred_tables"), "src")
+    os.makedirs(d, exist_ok=True)
+    with open(os.path.join(d, "generated.rs"), "w") as f:
+        f.write("pub fn sweeps() -> Vec<(&'static str, fn() -> Vec<(u32, u32)>)> { vec![] }\n")
+    ws.add_crate("pred_tables", "mod generated;\n" + CRG_MAIN % (REPO_, HARNESS, "main_builtin.rs"),
+                 deps='serde_json = "1"\nunicode-xid = "0.2.2"\n')
+    ok, err = ws.build()
+    if not ok:
+        raise ToolError("predicate table helper does not build: " + err[-800:])
+    o = os.path.join(BUILD, "PRED", "pred.json")
+    rcs = run_parallel([[ws.binary("pred_tables"), o]], timeout=600)
+    if rcs[0] != 0:
+        raise ToolError("predicate table helper failed")
+    with open(o) as f:
+        r = json.load(f)
+    names = {n.lower(): n for n in BUILTINS}
+    return {names[p_["name"].lower()]: p_["runs"] for p_ in r["predicates"]}
+
+
+def class_family(seed, n, base_id, tables=None):
+    """One-class lexers over the digits: `<class expression> = tk(0), _ = tk(1)`; with `tables`
+    (built-in name -> ranges) also the built-in classes whose tables equal the predicates."""
     import random
-    from progs import Gen, set_, chr_, any_, alt, diff, var
+    from progs import Gen, set_, chr_, any_, alt, diff, var, bi
     rnd = random.Random(seed)
     lo, hi = 48, 57
 
@@ -1219,6 +1248,8 @@ def class_family(seed, n, base_id):
             return chr_(rnd.randrange(lo, hi + 1))
         if r < 0.8:
             return any_()
+        if tables is not None and r < 0.93:
+            return bi(rnd.choice(STABLE_BUILTINS))
         a = rnd.randrange(lo, hi)
         return set_([(a, rnd.randrange(a + 1, hi + 1))])
 
@@ -1243,7 +1274,7 @@ def class_family(seed, n, base_id):
         pts = set()
         from progs import class_iv
         try:
-            iv = class_iv(e, {n_: r for n_, r, _ in env})
+            iv = class_iv(e, {n_: r for n_, r, _ in env}, tables)
         except Exception:
             continue
         if not iv:
@@ -1251,9 +1282,19 @@ def class_family(seed, n, base_id):
         for a, b_ in iv:
             pts |= {a - 1, a, b_, b_ + 1}
         pts |= {47, 48, 57, 58}
-        pts = sorted(c for c in pts if 0 <= c <= 0x10FFFF)
+        txt = json.dumps(e) + json.dumps([x[1] for x in env])
+        used = [nm for nm in STABLE_BUILTINS if '"n": "%s"' % nm in txt] if tables else []
+        for nm in used:
+            for a, b_ in tables[nm]:
+                pts |= {a - 1, a, b_, b_ + 1}
+        pts = sorted(c for c in pts if 0 <= c <= 0x10FFFF and not (0xD800 <= c <= 0xDFFF))
+        if len(pts) > 160:
+            pts = sorted(rnd.sample(pts, 160))
         p = Program(base_id + len(out), [("Init", rules)], env=env, sigma=pts, k=1, named=False)
-        if p.well_formed():
+        if used:
+            p.bi = {nm: tables[nm] for nm in used}
+            p.bi["none"] = []
+        if p.well_formed(tables):
             out.append(p)
     return out
 
@@ -1329,13 +1370,16 @@ def check_C11(tier, seed):
                 "(exact piece equality is only a drift diagnostic); by induction this covers all "
                 "operation histories over the universe; part 2: one-class lexers `<class expr> = 0, "
                 "_ = 1` over the digits (sets, ranges, `_`, `|`, `#`, chained and nested differences, "
-                "variables) run on every boundary point +-1 against RefLexer.tla" % maxpoint,
+                "variables, and the 13 built-in classes whose tables equal this toolchain's predicates, "
+                "with the predicate ranges imported as the specification's tables) run on every "
+                "boundary point +-1 against RefLexer.tla" % maxpoint,
         "samples": [{"transition": trs[0]}] if trs else [],
         "tlc_cmd": tlc.cmd, "exhaustive": True,
     }
     # Part 2: class expressions through real lexers against the reference
-    n = sizes(tier, 80, 800)
-    progs = [p for p in class_family(seed, n, 100)]
+    n = sizes(tier, 100, 800)
+    tables = predicate_tables()
+    progs = [p for p in class_family(seed, n, 100, tables=tables)]
     byid = {p.id: p for p in progs}
     fr = replay_family("C11", progs, workers=8, tlc_timeout=900)
     other = replay_violations(out, fr, lambda evs: proj_tokens(evs, stop_at_invalid=False), byid,
@@ -1463,12 +1507,12 @@ BUILTINS = ["alphabetic", "alphanumeric", "ascii", "ascii_alphabetic", "ascii_al
 FAR = [(0x10FF00 + 4 * i, 0x10FF01 + 4 * i) for i in range(10)]   # ten far-away two-character ranges
 
 
-def c13_module(mid, lhs, ctx=None):
+def c13_module(mid, lhs, ctx=None, extra=""):
     """A lexer `lhs [> ctx] = 0, ('a' = 1,) _ = 2` and its sweep function."""
     far_txt = " ".join("'\\u{%x}'-'\\u{%x}'" % (a, b_) for a, b_ in FAR)
     lhs = (lhs or "").replace("@FAR@", "[" + far_txt + "]")
     if ctx is None:
-        rules = "%s = 0u8,\n            _ = 2u8," % lhs
+        rules = "%s = 0u8,\n            %s\n            _ = 2u8," % (lhs, extra)
         body = """
         let input = crate::all_scalars();
         let mut acc = vec![false; 0x110000];
@@ -1541,6 +1585,10 @@ def check_C13(tier, seed):
         # and, when there are more than 9, compiled to a binary-search table in the main automaton
         mods.append(c13_module("%d_tab" % bi_, "$$%s '\\u{10fffe}'?" % name))
         plan.append(("%d_tab" % bi_, name, "kept-target-state"))
+        # combined with another rule whose set overlaps the class: the subset construction has to
+        # split the class's ranges without changing what the class accepts
+        mods.append(c13_module("%d_ovl" % bi_, "$$%s" % name, extra="['0'-'5' 'a'-'f' 'A'-'F' '\\u{3b1}'-'\\u{3b3}' '\\u{4e00}'-'\\u{4e10}'] '!' = 1u8,"))
+        plan.append(("%d_ovl" % bi_, name, "with-overlapping-later-rule"))
         if tier == "thorough" or bi_ % 4 == seed % 4:
             mods.append(c13_module("%d_ctx" % bi_, None, ctx="$$%s" % name))
             plan.append(("%d_ctx" % bi_, name, "right-context"))
@@ -1624,7 +1672,7 @@ def check_C13(tier, seed):
                 want = norm(base + FAR)
             elif shape == "minus-everything-from-U+100":
                 want = iv_diff(base, [(0x100, 0x10FFFF)])
-            elif shape == "kept-target-state":
+            elif shape in ("kept-target-state", "with-overlapping-later-rule"):
                 want = base
             else:
                 want = iv_diff(base, [(97, 97)])   # 'a' itself is not swept in the context lexer
@@ -2177,7 +2225,23 @@ def check_C02(tier, seed):
     big = F.random_general(seed, sizes(tier, 150, 3000), 200000, k=3, nsets=(1, 1, 2), nrules=(1, 2, 3),
                            depth=4, p_ctx=0.15, p_eoi=0.15, p_var=0.3, menu_sizes=(1,))
     classes = class_family(seed, sizes(tier, 120, 1500), 300000)
-    allp = progs + big + classes
+    # two rules whose leading ranges overlap in every possible way (the subset construction
+    # merges their range transitions; the later rule must not disturb the earlier one)
+    from progs import set_, chr_, cat
+    pairs_ = []
+    letters_ = [97, 98, 99, 100, 101]
+    rngs = [(a, b_) for i, a in enumerate(letters_) for b_ in letters_[i:]]
+    pid_ = 400000
+    for r1 in rngs:
+        for r2 in rngs:
+            if r1 == r2 or r1[1] < r2[0] or r2[1] < r1[0]:
+                continue
+            pairs_.append(Program(pid_, [("Init", [F.simple_rule(cat(set_([r1] if r1[0] != r1[1] else [(r1[0], r1[1] + 0)]), chr_(120))),
+                                                   F.simple_rule(cat(set_([r2]), chr_(121)))])], sigma=(97, 99, 101, 120), k=2))
+            pid_ += 1
+    if tier == "quick":
+        pairs_ = rnd.sample(pairs_, min(len(pairs_), 90))
+    allp = progs + big + classes + pairs_
     byid = {p.id: p for p in allp}
     ws, dumps, outs, ok, err = dump_programs("C02", allp, nb=14)
     pairs = []
@@ -2497,6 +2561,34 @@ def check_C12(tier, seed):
                                        "desc": "module-level items of %s are not the ones the clash-free naming scheme gives: %s" % (
                                            r["name"], [x for x in r["items"] if "ACTION" not in x][:10]),
                                        "payload": {"kind": "names", "recorded": r}})
+    # every definition that Defs.tla calls well-formed (lets at top level and inside rule sets, the
+    # same local name in different rule sets, lazily resolved variables, ...) must expand
+    wf_cases = []
+    wf_states = 0
+    for cfg_ in (("MC_Defs_a.cfg",) if tier == "quick" else ("MC_Defs_a.cfg", "MC_Defs_b.cfg")):
+        dt = run_tlc("Defs.tla", cfg_, workers=8, timeout=1500, tag="C12_defs" + cfg_[8])
+        if not dt.ok:
+            raise ToolError("Defs.tla: " + str(dt.error))
+        wf_cases += [c for c in dt.tagged.get("DEF", []) if c["wf"]]
+        wf_states += dt.distinct
+    seen_ = {}
+    for c in wf_cases:
+        seen_[json.dumps(c["items"], sort_keys=True)] = c
+    wf_cases = list(seen_.values())
+    invs_ = [("W%d" % i, "LW%d -> u8; %s" % (i, def_text(c["items"]))) for i, c in enumerate(wf_cases)]
+    wsw, wout, wok, werr = verif_crates("C12w", invs_)
+    n_wf_ok = 0
+    for i, c in enumerate(wf_cases):
+        o = wout.get("W%d" % i)
+        text = def_text(c["items"])
+        if o is None or o["outcome"] != "ok":
+            if len([v for v in out.violations if v["key"].startswith("well-formed definition")]) < 10:
+                out.violations.append({"key": "well-formed definition: %s" % text,
+                                       "desc": "well-formed definition does not expand (%s): `%s` :: %s" % (
+                                           o and o["outcome"], text, (o and o.get("message", "") or "")[:150]),
+                                       "payload": {"kind": "expansion", "text": "L1 -> u8; " + text, "outcome": o}})
+        else:
+            n_wf_ok += 1
     # the recorded backtrack analyses terminate for the right reason
     bt_part(out, "C12", tier, [(p, dumps[p.id]) for p in progs
                                if dumps.get(p.id) and not dumps[p.id].get("panicked") and "dfa_pre" in dumps[p.id]], byid)
@@ -2547,11 +2639,13 @@ def check_C12(tier, seed):
         "definitions_expanded_twice": len(progs), "expansions_ok": n_ok, "slowest_expansion_ms": slowest,
         "item_name_sets_matching_scheme": names_ok,
         "pinned_variant_refuted_by_spec": True,
+        "well_formed_definitions_of_Defs_tla_expanded": n_wf_ok,
         "scenarios_compiled_and_run": n_sc, "scenarios": [n_ for n_, _ in C12_SCENARIOS],
         "family_sample_compiled_by_rustc": len(sample) - len(failures),
         "rule": "Backtrack.tla: termination (liveness under weak fairness), monotonicity and correctness "
                 "of the work-list analysis for every graph with <= %d states and every processing order; "
-                "Names.tla: item names of two lexers are disjoint; then seeded definitions (8-40 rules, "
+                "Names.tla: item names of two lexers are disjoint; every definition that Defs.tla enumerates as "
+                "well-formed expands; then seeded definitions (8-40 rules, "
                 "1-3 rule sets, contexts, `$`, variables, repeated bracket-set members, big built-ins, the "
                 "property's own examples) are expanded twice by the real macro under a watchdog "
                 "(outcome ok, identical token streams, < 30 s), the recorded work-list iterations are "
